@@ -6,13 +6,20 @@ set_option linter.unusedSimpArgs false
 /-! completeness direction of the build outcomes: each documented cause makes the build fail with its exception -/
 namespace Pyx.Sql
 
-/-! ### phase 1: a duplicate class name -/
+/-! ### phase 1: a duplicate class name, or a class with two attribute names equal after upper-casing -/
+
+/-- what `define_class` checks over the CREATE TABLE statements: class names distinct after upper-casing, and within
+    each class the attribute names distinct after upper-casing -/
+def TablesOk (u : UC) (pre : List ClassB) (cs : List ClassB) : Prop :=
+  KindsDistinct u (pre ++ cs) ∧ ∀ c ∈ cs, attrNamesOk u c.attrs = true
 
 theorem popClasses_dup (u : UC) : ∀ (stmts : List Stmt) (s : BState), KindsDistinct u s.classes →
-    ¬ KindsDistinct u (s.classes ++ newTables stmts) → popClasses u stmts s = .error .metaErr := by
+    ¬ TablesOk u s.classes (newTables stmts) → popClasses u stmts s = .error .metaErr := by
   intro stmts
   induction stmts with
-  | nil => intro s hd hnd; simp only [newTables, List.append_nil] at hnd; exact absurd hd hnd
+  | nil =>
+    intro s hd hnd
+    exact absurd ⟨by simpa [newTables] using hd, by simp [newTables]⟩ hnd
   | cons st rest ih =>
     intro s hd hnd
     cases st with
@@ -22,36 +29,48 @@ theorem popClasses_dup (u : UC) : ∀ (stmts : List Stmt) (s : BState), KindsDis
       | some c => rfl
       | none =>
         simp only
-        have hnone : ∀ c ∈ s.classes, u.upper c.kind ≠ u.upper kind := by
-          intro c hc
-          simp only [BState.find?, List.find?_eq_none] at hf
-          have := hf c hc
-          simpa using this
-        apply ih
-        · unfold KindsDistinct at hd ⊢
-          simp only [List.map_append, List.map_cons, List.map_nil]
-          rw [List.nodup_append]
-          refine ⟨hd, by simp, ?_⟩
-          intro a ha b hb
-          simp only [List.mem_singleton] at hb; subst hb
-          obtain ⟨c, hc, rfl⟩ := List.mem_map.mp ha
-          exact hnone c hc
-        · simpa [newTables, List.append_assoc] using hnd
+        by_cases hn : attrNamesOk u attrs = true
+        · simp only [hn, if_true]
+          have hnone : ∀ c ∈ s.classes, u.upper c.kind ≠ u.upper kind := by
+            intro c hc
+            simp only [BState.find?, List.find?_eq_none] at hf
+            have := hf c hc
+            simpa using this
+          apply ih
+          · unfold KindsDistinct at hd ⊢
+            simp only [List.map_append, List.map_cons, List.map_nil]
+            rw [List.nodup_append]
+            refine ⟨hd, by simp, ?_⟩
+            intro a ha b hb
+            simp only [List.mem_singleton] at hb; subst hb
+            obtain ⟨c, hc, rfl⟩ := List.mem_map.mp ha
+            exact hnone c hc
+          · intro ⟨h1, h2⟩
+            apply hnd
+            refine ⟨by simpa [newTables, List.append_assoc] using h1, ?_⟩
+            intro c hc
+            simp only [newTables, List.mem_cons] at hc
+            rcases hc with rfl | hc
+            · exact hn
+            · exact h2 c hc
+        · simp only [hn, Bool.false_eq_true, if_false]
     | createRop _ _ _ _ _ _ _ _ _ => simpa [popClasses, newTables] using ih s hd (by simpa [newTables] using hnd)
     | createIndex _ _ _ => simpa [popClasses, newTables] using ih s hd (by simpa [newTables] using hnd)
     | insert _ _ _ => simpa [popClasses, newTables] using ih s hd (by simpa [newTables] using hnd)
 
-/-- phase 1 succeeds exactly when the declared class names are distinct after upper-casing -/
+/-- phase 1 succeeds exactly when the declared class names are distinct after upper-casing and no class declares two
+    attribute names that coincide after upper-casing -/
 theorem popClasses_ok_iff (u : UC) (stmts : List Stmt) :
-    (∃ s, popClasses u stmts BState.empty = .ok s) ↔ KindsDistinct u (newTables stmts) := by
+    (∃ s, popClasses u stmts BState.empty = .ok s) ↔
+      (KindsDistinct u (newTables stmts) ∧ ∀ c ∈ newTables stmts, attrNamesOk u c.attrs = true) := by
   constructor
   · intro ⟨s, hs⟩
-    by_cases hd : KindsDistinct u (newTables stmts)
-    · exact hd
+    by_cases hd : TablesOk u [] (newTables stmts)
+    · exact ⟨by simpa using hd.1, hd.2⟩
     · have := popClasses_dup u stmts BState.empty (by simp [KindsDistinct, BState.empty]) (by simpa [BState.empty] using hd)
       rw [this] at hs; cases hs
-  · intro hd
-    exact ⟨_, popClasses_ok u stmts BState.empty (by simpa [BState.empty] using hd)⟩
+  · intro ⟨hd, hn⟩
+    exact ⟨_, popClasses_ok u stmts BState.empty (by simpa [BState.empty] using hd) hn⟩
 
 /-! ### phase 2: an identifier for an undeclared class -/
 
@@ -212,13 +231,22 @@ theorem popInstance_arity (u : UC) (s : BState) (kind : Name) (values : List Tex
 /-- a positional INSERT into a declared class with an attribute of unknown type raises the metamodel exception -/
 theorem popInstance_unknown_type (u : UC) (s : BState) (kind : Name) (values : List Text) (c : ClassB)
     (hf : s.find? u kind = some c) (hrow : newRowOk u c = false) : popInstance u s kind values none = .error .metaErr := by
-  simp [popInstance, isNamed, ensureClass, hf, hrow]
+  simp [popInstance, isNamed, inferOk, ensureClass, hf, hrow]
+
+/-- a named INSERT (as many names as values) into an undeclared class, two of whose names coincide after upper-casing,
+    raises the metamodel exception: `define_class` rejects the inferred class -/
+theorem popInstance_name_clash (u : UC) (s : BState) (kind : Name) (values : List Text) (n : Name) (ns : List Name)
+    (hl : (n :: ns).length = values.length) (hf : s.find? u kind = none)
+    (hc : attrNamesOk u (inferredAttrs u (n :: ns) values) = false) :
+    popInstance u s kind values (some (n :: ns)) = .error .metaErr := by
+  have h' : ns.length + 1 = values.length := by simpa using hl
+  simp [popInstance, isNamed, h', inferOk, hf, inferredFor, hc]
 
 /-- a positional INSERT into a declared class with known types and a value that cannot be read raises the parsing exception -/
 theorem popInstance_bad_value (u : UC) (s : BState) (kind : Name) (values : List Text) (c : ClassB)
     (hf : s.find? u kind = some c) (hrow : newRowOk u c = true) (e : BuildErr)
     (hcells : positionalCells u c c.attrs values = .error e) : popInstance u s kind values none = .error e := by
-  simp [popInstance, isNamed, ensureClass, hf, hrow, cellsOf, hcells]
+  simp [popInstance, isNamed, inferOk, ensureClass, hf, hrow, cellsOf, hcells]
 
 theorem positionalCells_bad (u : UC) (c : ClassB) : ∀ (attrs : List (Name × Name)) (values : List Text),
     ¬ CellsOk u attrs values → positionalCells u c attrs values = .error .parseErr := by
@@ -263,26 +291,38 @@ theorem popInstances_first_failure (u : UC) : ∀ (pre : List Stmt) (s s' : BSta
 
 /-! ### the whole build -/
 
-theorem build_fails_duplicate (u : UC) (stmts : List Stmt) (h : ¬ KindsDistinct u (newTables stmts)) :
+theorem build_fails_tables (u : UC) (stmts : List Stmt) (h : ¬ TablesOk u [] (newTables stmts)) :
     build u stmts = .error .metaErr := by
   unfold build
   rw [popClasses_dup u stmts BState.empty (by simp [KindsDistinct, BState.empty]) (by simpa [BState.empty] using h)]
 
+theorem build_fails_duplicate (u : UC) (stmts : List Stmt) (h : ¬ KindsDistinct u (newTables stmts)) :
+    build u stmts = .error .metaErr :=
+  build_fails_tables u stmts (fun ht => h (by simpa using ht.1))
+
+/-- a declared class with two attribute names that coincide after upper-casing -/
+theorem build_fails_attr_names (u : UC) (stmts : List Stmt) (h : ∃ c ∈ newTables stmts, attrNamesOk u c.attrs = false) :
+    build u stmts = .error .metaErr := by
+  obtain ⟨c, hc, hn⟩ := h
+  exact build_fails_tables u stmts (fun ht => by have := ht.2 c hc; rw [hn] at this; cases this)
+
 theorem build_fails_index (u : UC) (stmts : List Stmt) (hd : KindsDistinct u (newTables stmts))
+    (hn : ∀ c ∈ newTables stmts, attrNamesOk u c.attrs = true)
     (h : ∃ kind name attrs, Stmt.createIndex kind name attrs ∈ stmts ∧ attrs ≠ [] ∧
       ∀ c ∈ newTables stmts, sameKind u c.kind kind = false) : build u stmts = .error .metaErr := by
   unfold build
-  have h1 := popClasses_ok u stmts BState.empty (by simpa [BState.empty] using hd)
+  have h1 := popClasses_ok u stmts BState.empty (by simpa [BState.empty] using hd) hn
   simp only [BState.empty, List.nil_append] at h1
   simp only [BState.empty, h1]
   rw [popIdents_unknown u stmts ⟨newTables stmts, []⟩ h]
 
 theorem build_fails_rop (u : UC) (stmts : List Stmt) (hd : KindsDistinct u (newTables stmts))
+    (hn : ∀ c ∈ newTables stmts, attrNamesOk u c.attrs = true)
     (hi : ∀ kind name attrs, Stmt.createIndex kind name attrs ∈ stmts → attrs ≠ [] → ∃ c ∈ newTables stmts, sameKind u c.kind kind = true)
     (h : ∃ rel sk sc skeys sp tk tc tkeys tp, Stmt.createRop rel sk sc skeys sp tk tc tkeys tp ∈ stmts ∧
       RopBad u (newTables stmts) sk skeys tk tkeys) : build u stmts = .error .metaErr := by
   unfold build
-  have h1 := popClasses_ok u stmts BState.empty (by simpa [BState.empty] using hd)
+  have h1 := popClasses_ok u stmts BState.empty (by simpa [BState.empty] using hd) hn
   simp only [BState.empty, List.nil_append] at h1
   simp only [BState.empty, h1]
   have h2 := popIdents_ok u stmts ⟨newTables stmts, []⟩ hi
